@@ -8,8 +8,10 @@ import (
 	"log"
 	"math"
 	"math/rand"
+	"net/url"
 	"os"
 	"os/exec"
+	"strconv"
 	"sync"
 	"time"
 
@@ -39,6 +41,9 @@ type c02Op struct {
 type c02Phase struct {
 	Name string  `json:"name"` // "up" (link up) or "down" (sync disabled)
 	Ops  []c02Op `json:"ops"`
+	// a "down" phase that is not a disabled link but a restart of the upstream instance (same address, same store):
+	// the operations are carried out right after the restart, before the downstream has reconnected
+	Restart bool `json:"restart,omitempty"`
 	// observations at the end of the phase (after quiescence when the link is up)
 	D         []sView `json:"d"`
 	U         []sView `json:"u"`
@@ -177,7 +182,7 @@ func c02Run(c *c02Case) error {
 	if err != nil {
 		return err
 	}
-	defer inU.stop()
+	defer func() { inU.stop() }()
 	ncD, err := nats.Connect(inD.url, nats.Timeout(10*time.Second))
 	if err != nil {
 		return err
@@ -187,7 +192,7 @@ func c02Run(c *c02Case) error {
 	if err != nil {
 		return err
 	}
-	defer ncU.Close()
+	defer func() { ncU.Close() }()
 	// the sync client, driven directly (no manager): config changes are delivered through Points()
 	ncS, err := nats.Connect(inD.url, nats.Timeout(10*time.Second))
 	if err != nil {
@@ -239,17 +244,45 @@ func c02Run(c *c02Case) error {
 			time.Sleep(300 * time.Millisecond)
 		}
 	}
+	disabled, restarted := -1.0, false
 	for i := range c.Phases {
 		ph := &c.Phases[i]
 		dis := 0.0
-		if ph.Name == "down" {
+		if ph.Name == "down" && !ph.Restart {
 			dis = 1
 		}
-		sc.Points("sync1", []data.Point{{Type: data.PointTypeDisabled, Time: time.Now(), Value: dis}})
-		if ph.Name == "down" {
-			time.Sleep(150 * time.Millisecond) // let the disconnect take effect
-		} else {
-			time.Sleep(300 * time.Millisecond) // connect + first catch-up
+		if ph.Restart {
+			u, err := url.Parse(inU.url)
+			if err != nil {
+				return err
+			}
+			port, _ := strconv.Atoi(u.Port())
+			ncU.Close()
+			inU.stop()
+			time.Sleep(100 * time.Millisecond)
+			if inU, err = startInstancePort(dirU, c02Up, port); err != nil {
+				return fmt.Errorf("restart of the upstream instance: %v", err)
+			}
+			if ncU, err = nats.Connect(inU.url, nats.Timeout(10*time.Second)); err != nil {
+				return err
+			}
+			restarted = true
+		} else if dis != disabled {
+			// (a write of the disabled point makes the sync client drop and redo its connection: only when it changes)
+			disabled = dis
+			sc.Points("sync1", []data.Point{{Type: data.PointTypeDisabled, Time: time.Now(), Value: dis}})
+			if ph.Name == "down" {
+				time.Sleep(150 * time.Millisecond) // let the disconnect take effect
+			} else {
+				time.Sleep(300 * time.Millisecond) // connect + first catch-up
+			}
+		}
+		if ph.Name == "up" && restarted {
+			// the downstream reconnects on its own schedule (seconds): the phase starts when it has
+			restarted = false
+			for t0 := time.Now(); inU.ns.NumClients() < 3 && time.Since(t0) < 40*time.Second; {
+				time.Sleep(100 * time.Millisecond)
+			}
 		}
 		for _, o := range ph.Ops {
 			nc := ncD
@@ -321,6 +354,10 @@ func (g *c02Gen) points(side string) c02Op {
 		// (an untyped point is a point like any other: its identity is ("", key))
 		ps = append(ps, sPoint{Type: []string{"value", "description", "units", "value", "description", ""}[g.r.Intn(6)], Key: []string{"", "1", "2", "3"}[g.r.Intn(4)],
 			Time: g.tick(), VBits: math.Float64bits(float64(g.r.Intn(100))), Text: []string{"", "x", "söme"}[g.r.Intn(3)]})
+		if g.r.Intn(8) == 0 {
+			// dated ahead of the wall clock (a device whose clock runs fast, a schedule entry): a point like any other
+			ps[len(ps)-1].Time += int64(38*3600) * 1e9
+		}
 		if g.r.Intn(4) == 0 {
 			// a point-level deletion (the tombstone counter of the point itself) or a binary payload: fields that the
 			// point checksum does not cover travel with the point all the same
@@ -416,6 +453,27 @@ func c02GenCase(r *rand.Rand, id int, allowDelete bool) *c02Case {
 			ph3.Ops = append(ph3.Ops, g.points(c02Side(r)))
 		}
 		c.Phases = append(c.Phases, ph3)
+		c.Nodes = g.nodes
+		return c
+	}
+	if id%8 == 7 {
+		// the upstream instance is restarted (the link drops at the NATS level and comes back by itself) and, before the
+		// downstream has reconnected, gains a node with a child: downstream they arrive one level per catch-up pass
+		c.Kind = "restart-create-upstream"
+		g.outage = true
+		ops := g.create("U")
+		a := g.nodes[len(g.nodes)-1]
+		g.n++
+		b := fmt.Sprintf("u%d", g.n)
+		g.nodes = append(g.nodes, b)
+		g.par[b] = a
+		g.only[b] = "U"
+		t := g.tick()
+		ops = append(ops,
+			c02Op{"U", sOp{Kind: "ep", Node: b, Parent: a, Points: []sPoint{{Type: "tombstone", Time: t}, {Type: "nodeType", Time: t, Text: "variable"}}}},
+			c02Op{"U", sOp{Kind: "np", Node: b, Points: []sPoint{{Type: "description", Time: g.tick(), Text: "below " + a}}}})
+		g.outage = false
+		c.Phases = append(c.Phases, c02Phase{Name: "down", Restart: true, Ops: ops}, c02Phase{Name: "up"})
 		c.Nodes = g.nodes
 		return c
 	}
